@@ -35,9 +35,9 @@ CHECKS = {
    design="4/C11", technique="effect-ordering dataflow on all CFG paths with bottom-up read/write summaries",
    note="Trusted: clang AST, effect summaries (prototype const-ness for bodiless callees), memMove as tolerant primitive; memJoin's case analysis on pointer order is not followed by the general rule (frozen undecided) but each of its moves must be justified by a memIsDisjoint2 guard on its path (R11-guarded-moves); local pointers set through an out-parameter (derDec2(&v, .., der)) alias the call's other buffers; the header remarks are the specification."),
  "C10": dict(level="other",
-   text="One clause of the property is decided, exactly: a state that belt.h/brng.h/botp.h declare copyable as a memory fragment never stores an address derived from the state itself, a local object or the scratch stack. Type inventory of all state structs of these families (a struct without pointer fields cannot break relocation) plus classification of every store into a pointer field by the origin of the stored address. Chunking equivalence and Get-then-continue quantify over values and are declined.",
-   design="4/C10", technique="type inventory + points-to classification of stores (AST dataflow)",
-   note="Trusted: clang AST; addresses enter states only through typed pointer fields (no raw copy of an address into state bytes exists in the tree)."),
+   text="The relocation clause is decided exactly: a state that belt.h/brng.h/botp.h declare copyable as a memory fragment never stores an address derived from the state itself, a local object or the scratch stack (type inventory of all state structs plus classification of every store into a pointer field by the origin of the stored address). Two structural necessary conditions of the buffering clauses are decided as well: (R10.3) no Get/Verify step -- directly or through a family helper -- writes a scalar state field that another function over the same state reads before writing, which is what `get-then-continue equals never having called it` needs (30 Get steps; generator steps of botp/KRP tabled with reasons); (R10.4) Step functions that implement the same accumulate/complete/loop/tail buffering for different data operations (bashPrg Absorb/Squeeze/Encr/Decr; belt CFB, ECB, BDE E/D) have identical conditions and scalar state updates (sibling cross-check). Equality of chunked and one-shot results is a value statement and is declined.",
+   design="4/C10", technique="type inventory + points-to classification of stores; per-path field-use (liveness) analysis; sibling cross-check of control skeletons",
+   note="Trusted: clang AST; addresses enter states only through typed pointer fields (no raw copy of an address into state bytes exists in the tree); array fields written by Get steps are not judged (a Get may pad the dead tail of the block buffer); the sibling groups are a frozen table confirmed on the reference tree."),
  "C19": dict(level="other",
    text="Two exact necessary conditions: (1) every one of the ~1290 ASSERT arguments is free of assignments/increments and calls only functions whose bottom-up effect summary is empty (no global write, no write through a parameter, no allocation/lock/unknown indirect call), so assertion-enabled and release builds execute the same state changes; (2) the set of public functions and their prototypes is identical across B_PER_W 64/32, regular/SAFE_FAST builds (modulo _safe/_fast renaming; each of the 33 regular editions has a fast twin of identical type) and the five bash-f platforms. Equality of outputs across configurations for all inputs is a value statement and is declined.",
    design="4/C19", technique="effect analysis (bottom-up summaries over the call graph) + cross-configuration API diff on the type-checked AST",
